@@ -1717,6 +1717,10 @@ string StringReader::get_line(bool advance) {
   }
   if (advance) {
     this->offset += (ret.size() + 1);
+    if (this->offset > this->length) {
+      // The last line had no terminating newline
+      this->offset = this->length;
+    }
   }
   if (ends_with(ret, "\r")) {
     ret.pop_back();
